@@ -19,7 +19,7 @@ from .. import boot, canon, corpus, execute, pf, pool
 ID = 'C18'
 BUDGET = {'quick': 300, 'thorough': 2400}
 
-KINDS = ['def', 'class', 'async', 'decorated', 'lambda', 'comp']
+KINDS = ['def', 'class', 'async', 'decorated', 'decorated_async', 'lambda', 'comp']
 
 
 def _init():
@@ -62,9 +62,10 @@ def render_shape(seq):
             lines.append(pad + 'leaf_%d = 1' % (k + len(rest)))
             lines.append(pad + 'val_%d = %s' % (k, expr(k, rest)))
             return
-        if kind == 'decorated':
+        if kind in ('decorated', 'decorated_async'):
             lines.append(pad + '@deco')
-        head = {'def': 'def', 'decorated': 'def', 'async': 'async def', 'class': 'class'}[kind]
+        head = {'def': 'def', 'decorated': 'def', 'async': 'async def', 'class': 'class',
+                'decorated_async': 'async def'}[kind]
         if kind == 'class':
             lines.append(pad + 'class Cls_%d(object):' % k)
         else:
@@ -231,11 +232,16 @@ def check_text(tid, text, others, modname='main'):
                     sc = by_line[(n.name, n.line)]
                     enclosing = sc.parent
                     # full_name for module- and class-level definitions
+                    want = modname + '.' + sc.qualname()
                     if all(x.kind == 'class' for x in enclosing.chain()[:-1]):
-                        want = modname + '.' + sc.qualname()
                         if n.full_name != want:
                             fail('full_name-differs@%s' % n.type, 'full_name@%d:%s' % (n.line, n.name),
                                  {'got': n.full_name, 'expected': want})
+                    elif enclosing.kind == 'class' and n.full_name not in (None, want):
+                        # class-level member of a class that lives inside a function: jedi answers
+                        # None today; a dotted name is only acceptable if it is the real one
+                        fail('full_name-differs@local-class-member', 'full_name@%d:%s' % (n.line, n.name),
+                             {'got': n.full_name, 'expected_None_or': want})
                 else:
                     e, _ = expected_context((n.line, n.column), mod, scs)
                     if len(e) != 1:
